@@ -1,1 +1,238 @@
-// harnesses for src/join (child module, cfg(kani) only)
+// C14 (join half) / C01 (join protocol): harnesses over the real src/join.rs with the real
+// Blocker (Park flavour), park.rs, yield_with and cancel.rs underneath.
+// Child module of src/join.rs (cfg(kani) only).
+//
+// Every scope destructor (coroutine::scope, join!, cqueue::scope) ends in JoinHandle::join ->
+// Join::wait for each child; "the scope is never left while a child is running" therefore rests
+// on "Join::wait does not return while Join.state is still true".  The Box<dyn FnOnce> chains of
+// Scope::defer / spawn_unsafe themselves exceed the memory caps (13-21 GB) and are not encoded.
+use super::*;
+use crate::cancel::Cancel;
+use crate::coroutine_impl::{CoroutineImpl, EventSubscriber};
+use crate::scheduler::Scheduler;
+use crate::verif_shim::{gen, np, rt};
+use std::panic as stdpanic;
+use std::time::Duration;
+
+static mut CANCEL: *const Cancel = std::ptr::null();
+static mut JOIN: *const Join = std::ptr::null();
+static mut OWNER_RESUMED: usize = 0;
+static mut OWNER_SUSPENDED: usize = 0;
+static mut CHILD_DONE: bool = false;
+type TD = Arc<AtomicOption<CoroutineImpl>>;
+
+fn schedule_stub(_s: &Scheduler, co: CoroutineImpl) {
+    std::mem::forget(co);
+    unsafe { OWNER_RESUMED += 1 };
+}
+fn run_coroutine_stub(co: CoroutineImpl) {
+    std::mem::forget(co);
+    unsafe { OWNER_RESUMED += 1 };
+}
+fn add_timer_none(_s: &Scheduler, _d: Duration, _co: TD) -> crate::timeout_list::TimeoutHandle<TD> {
+    kani::assume(false);
+    loop {}
+}
+fn del_timer_stub(_s: &Scheduler, h: crate::timeout_list::TimeoutHandle<TD>) {
+    std::mem::forget(h);
+}
+fn is_coroutine_true() -> bool {
+    true
+}
+fn current_cancel_data_stub() -> &'static Cancel {
+    unsafe { &*CANCEL }
+}
+fn co_cancel_data_stub(_co: &CoroutineImpl) -> &'static Cancel {
+    unsafe { &*CANCEL }
+}
+fn yield_now_prune() {
+    kani::assume(false);
+}
+/// while unwinding, check_cancel must not raise a second panic
+fn cancel_panic_stub() -> ! {
+    assert!(!unsafe { np::PANICKING }, "C09: second cancel panic raised while already unwinding");
+    unsafe { DIVERGED = true };
+    kani::assume(false);
+    loop {}
+}
+static mut DIVERGED: bool = false;
+/// the owner really suspends; the child then finishes (its closure has returned: real
+/// Join::trigger), which must resume the owner exactly once
+fn co_yield_with_stub<T: std::any::Any>(v: T) {
+    let b: Box<dyn std::any::Any> = Box::new(v);
+    let es = *b.downcast::<EventSubscriber>().unwrap();
+    let co: CoroutineImpl = gen::Generator::fresh();
+    unsafe { OWNER_SUSPENDED += 1 };
+    es.subscribe(co);
+    unsafe {
+        CHILD_DONE = true;
+        (*JOIN).trigger();
+        assert!(OWNER_RESUMED == 1, "C01/C14: owner parked for ever in join although the child has finished (or resumed twice)");
+    }
+}
+
+macro_rules! join_harness {
+    ($(#[$m:meta])* fn $name:ident() $body:block) => {
+        #[kani::proof]
+        $(#[$m])*
+        #[kani::stub(crate::scheduler::get_scheduler, rt::get_scheduler_stub)]
+        #[kani::stub(crate::scheduler::Scheduler::schedule, schedule_stub)]
+        #[kani::stub(crate::scheduler::Scheduler::add_timer, add_timer_none)]
+        #[kani::stub(crate::scheduler::Scheduler::del_timer, del_timer_stub)]
+        #[kani::stub(crate::coroutine_impl::run_coroutine, run_coroutine_stub)]
+        #[kani::stub(crate::coroutine_impl::is_coroutine, is_coroutine_true)]
+        #[kani::stub(crate::coroutine_impl::current_cancel_data, current_cancel_data_stub)]
+        #[kani::stub(crate::coroutine_impl::co_cancel_data, co_cancel_data_stub)]
+        #[kani::stub(crate::yield_now::get_co_para, rt::get_co_para_stub)]
+        #[kani::stub(crate::yield_now::yield_now, yield_now_prune)]
+        #[kani::stub(crate::cancel::trigger_cancel_panic, cancel_panic_stub)]
+        #[kani::stub(generator::co_set_para, rt::co_set_para_stub)]
+        #[kani::stub(generator::co_yield_with, co_yield_with_stub)]
+        #[kani::stub(std::thread::panicking, np::panicking_stub)]
+        #[kani::stub(crate::sync::blocking::ThreadPark::park_timeout, crate::sync::blocking::verif_kani::tp_park_unreachable)]
+        #[kani::stub(crate::sync::blocking::ThreadPark::unpark, crate::sync::blocking::verif_kani::tp_unpark_unreachable)]
+        #[kani::stub(<crate::io::sys::cancel::CancelIoImpl as crate::cancel::CancelIo>::cancel, crate::io::sys::cancel::verif_kani::io_cancel_none)]
+        #[kani::stub(<crate::io::sys::cancel::CancelIoImpl as crate::cancel::CancelIo>::clear, crate::io::sys::cancel::verif_kani::io_clear_none)]
+        #[kani::stub(<core::io::CustomOwner as core::ops::Drop>::drop, rt::custom_owner_drop_stub)]
+        #[kani::stub(std::io::ErrorKind::from_prim, rt::from_prim_unreachable)]
+        #[kani::stub(stdpanic::catch_unwind, rt::catch_unwind_stub)]
+        #[kani::stub(stdpanic::take_hook, rt::take_hook_stub)]
+        #[kani::stub(stdpanic::set_hook, rt::set_hook_stub)]
+        #[kani::stub(std::sync::Arc::drop_slow, rt::arc_drop_slow_stub)]
+        fn $name() $body
+    };
+}
+
+macro_rules! join_harness_np {
+    ($(#[$m:meta])* fn $name:ident() $body:block) => {
+        #[kani::proof]
+        $(#[$m])*
+        #[kani::stub(crate::scheduler::get_scheduler, rt::get_scheduler_stub)]
+        #[kani::stub(crate::scheduler::Scheduler::schedule, schedule_stub)]
+        #[kani::stub(crate::scheduler::Scheduler::add_timer, add_timer_none)]
+        #[kani::stub(crate::scheduler::Scheduler::del_timer, del_timer_stub)]
+        #[kani::stub(crate::coroutine_impl::run_coroutine, run_coroutine_stub)]
+        #[kani::stub(crate::coroutine_impl::is_coroutine, is_coroutine_true)]
+        #[kani::stub(crate::coroutine_impl::current_cancel_data, current_cancel_data_stub)]
+        #[kani::stub(crate::coroutine_impl::co_cancel_data, co_cancel_data_stub)]
+        #[kani::stub(crate::yield_now::get_co_para, rt::get_co_para_stub)]
+        #[kani::stub(crate::yield_now::yield_now, yield_now_prune)]
+        #[kani::stub(crate::cancel::trigger_cancel_panic, cancel_panic_stub)]
+        #[kani::stub(generator::co_set_para, rt::co_set_para_stub)]
+        #[kani::stub(generator::co_yield_with, co_yield_with_stub2)]
+        #[kani::stub(std::thread::panicking, np::panicking_stub)]
+        #[kani::stub(crate::sync::blocking::ThreadPark::park_timeout, crate::sync::blocking::verif_kani::tp_park_unreachable)]
+        #[kani::stub(crate::sync::blocking::ThreadPark::unpark, crate::sync::blocking::verif_kani::tp_unpark_unreachable)]
+        #[kani::stub(<crate::io::sys::cancel::CancelIoImpl as crate::cancel::CancelIo>::cancel, crate::io::sys::cancel::verif_kani::io_cancel_none)]
+        #[kani::stub(<crate::io::sys::cancel::CancelIoImpl as crate::cancel::CancelIo>::clear, crate::io::sys::cancel::verif_kani::io_clear_none)]
+        #[kani::stub(<core::io::CustomOwner as core::ops::Drop>::drop, rt::custom_owner_drop_stub)]
+        #[kani::stub(std::io::ErrorKind::from_prim, rt::from_prim_unreachable)]
+        #[kani::stub(stdpanic::catch_unwind, rt::catch_unwind_stub)]
+        #[kani::stub(stdpanic::take_hook, rt::take_hook_stub)]
+        #[kani::stub(stdpanic::set_hook, rt::set_hook_stub)]
+        #[kani::stub(std::sync::Arc::drop_slow, rt::arc_drop_slow_stub)]
+        fn $name() $body
+    };
+}
+
+/// the owner (a coroutine) waits for a child that has not finished yet - the call every scope
+/// destructor makes.  `owner_cancelled`: the owner was cancelled and is unwinding (the scope is
+/// being left by the cancel panic).
+fn owner_waits(owner_cancelled: bool) {
+    let cancel: &'static Cancel = Box::leak(Box::new(Cancel::new()));
+    rt::install_scheduler();
+    let join: &'static Join = Box::leak(Box::new(Join::new(Arc::new(AtomicOption::none()))));
+    unsafe {
+        CANCEL = cancel;
+        JOIN = join;
+        gen::SOLE = 0;
+        rt::CUR_CO = 0;
+    }
+    if owner_cancelled {
+        unsafe {
+            cancel.cancel();
+            np::PANICKING = true;
+        }
+    }
+    join.wait();
+    assert!(
+        !join.state.load(Ordering::Acquire),
+        "C14: Join::wait returned while the coroutine has not finished (the scope would be left with a child still running)"
+    );
+    unsafe {
+        kani::cover!(OWNER_SUSPENDED == 1 && CHILD_DONE, "owner really suspended and was resumed by the child's completion");
+    }
+}
+join_harness! { #[kani::unwind(3)] fn c14_join_wait_uncancelled_owner() { owner_waits(false) } }
+// witness harness of known finding F5 (expected to be refuted)
+join_harness! { #[kani::unwind(3)] fn c14_f5_witness_cancelled_unwinding_owner() { owner_waits(true) } }
+
+// ---- C01 H1: the join protocol against the child's completion at any atomic step ------------------
+use crate::verif_shim::sa;
+static mut TRIGGER_LEFT: bool = false;
+fn run_trigger() {
+    unsafe {
+        TRIGGER_LEFT = false;
+        CHILD_DONE = true;
+        np::nested(|| (*JOIN).trigger());
+    }
+}
+fn hook_trigger() {
+    unsafe {
+        if np::DEPTH == 0 && TRIGGER_LEFT && kani::any() {
+            run_trigger();
+        }
+    }
+}
+/// suspension with the child's completion possibly still outstanding
+fn co_yield_with_stub2<T: std::any::Any>(v: T) {
+    let b: Box<dyn std::any::Any> = Box::new(v);
+    let es = *b.downcast::<EventSubscriber>().unwrap();
+    let co: CoroutineImpl = gen::Generator::fresh();
+    unsafe {
+        OWNER_SUSPENDED += 1;
+        OWNER_RESUMED = 0;
+    }
+    es.subscribe(co);
+    hook_trigger();
+    unsafe {
+        if OWNER_RESUMED == 0 && TRIGGER_LEFT {
+            run_trigger();
+        }
+        assert!(OWNER_RESUMED <= 1, "C01: joiner resumed twice for one suspension");
+        assert!(OWNER_RESUMED == 1, "C01: joiner parked for ever although the coroutine has finished (lost wake-up between register and re-check)");
+    }
+}
+join_harness_np! {
+    #[kani::unwind(3)]
+    #[kani::stub(core::sync::atomic::Atomic::<bool>::load, sa::bool_load)]
+    #[kani::stub(core::sync::atomic::Atomic::<bool>::store, sa::bool_store)]
+    #[kani::stub(core::sync::atomic::Atomic::<bool>::swap, sa::bool_swap)]
+    #[kani::stub(crossbeam::atomic::AtomicCell::swap, rt::cell_swap)]
+    #[kani::stub(crossbeam::atomic::AtomicCell::store, rt::cell_store)]
+    #[kani::stub(crossbeam::atomic::AtomicCell::take, rt::cell_take)]
+    #[kani::stub(crate::cancel::CancelImpl::is_canceled, crate::cancel::verif_kani::is_canceled_never)]
+    fn c01_join_wait_vs_trigger_d1() {
+        let cancel: &'static Cancel = Box::leak(Box::new(Cancel::new()));
+        rt::install_scheduler();
+        let join: &'static Join = Box::leak(Box::new(Join::new(Arc::new(AtomicOption::none()))));
+        unsafe {
+            CANCEL = cancel;
+            JOIN = join;
+            gen::SOLE = 0;
+            rt::CUR_CO = 0;
+            TRIGGER_LEFT = true;
+            np::HOOK = Some(hook_trigger);
+        }
+        // is_done() never reports completion early
+        assert!(join.state.load(Ordering::Acquire) || unsafe { CHILD_DONE });
+        join.wait();
+        unsafe {
+            np::HOOK = None;
+            assert!(CHILD_DONE && !TRIGGER_LEFT, "C01: wait() returned before the coroutine finished");
+            assert!(!*join.state.as_ptr(), "C01: wait() returned while Join.state still says running");
+            kani::cover!(OWNER_SUSPENDED == 1 && np::PREEMPTS > 0, "the completion landed inside wait()/subscribe and the joiner suspended");
+            kani::cover!(OWNER_SUSPENDED == 0, "completion before / inside wait(): no suspension");
+        }
+    }
+}
